@@ -35,6 +35,16 @@ import "github.com/f1bonacc1/process-compose/src/app"
 // VerifRunHeadless exposes runHeadless to the simulation harness (scratch copy only).
 func VerifRunHeadless(p *app.ProjectRunner) error { return runHeadless(p) }
 EOM
+cat > "$SCRATCH/repo/src/client/zz_verif_export.go" <<EOM
+package client
+
+import "net/http"
+
+// VerifNewClient builds the bundled REST client over a transport the harness owns (scratch copy only).
+func VerifNewClient(rt http.RoundTripper, logLength int) *PcClient {
+	return newClient("sim", &http.Client{Transport: rt}, logLength)
+}
+EOM
 # the scratch repo must see the rt module (the rewritten files import it)
 cat >> "$SCRATCH/repo/go.mod" <<EOM
 
